@@ -6,8 +6,12 @@ import importlib, glob
 
 def collect():
     """Every vlib/cXX.py that defines MANIFEST = dict(technique=, text=, note=, design=[, category=]) is a claimed check."""
+    import subprocess
+    tracked = set(subprocess.run(["git", "ls-files", "vlib"], cwd=C.VERIF, capture_output=True, text=True).stdout.split())
     claimed = {}
     for f in sorted(glob.glob(os.path.join(C.VERIF, "vlib", "c[0-9][0-9].py"))):
+        if "vlib/" + os.path.basename(f) not in tracked:
+            continue   # work in progress of another worker: not claimed until committed
         pid = os.path.basename(f)[:-3].upper()
         mod = importlib.import_module("vlib." + pid.lower())
         if getattr(mod, "MANIFEST", None):
